@@ -276,6 +276,8 @@ def handleMachine (st : DState) (ws : List String) : Option (DState × String) :
       pure ({ st with hooks := hooks, builtin := !reg.isEmpty, m := { st.m with sys := { st.m.sys with registered := reg } } }, "ok")
   | ["stack", n] => do
     let n ← parseHex? n
+    -- whether the host can provide a huge stack is outside the model (the implementation's outcome is judged by the crash oracle)
+    if n > 2 ^ 24 then pure ({ st with poisoned := true }, "unspecified") else
     match initStack st.m n with
     | .ok (a, m) => pure ({ st with m := m }, "ok " ++ toHex a)
     | .err => pure (st, "err")
@@ -284,9 +286,13 @@ def handleMachine (st : DState) (ws : List String) : Option (DState × String) :
     let n ← parseHex? n
     let argv ← parseStrList argv
     let envp ← parseStrList envp
+    -- a huge request is only answered when the model rejects it before allocating (size arithmetic leaving 64 bits)
+    let failed : DState := { st with poisoned := true, m := { st.m with mem := stringsLeftBehind st.m.mem argv envp } }
+    if n > 2 ^ 24 && (u64add n ((argv.length + envp.length + 3) * 8 + 48)).isSome then
+      pure (failed, "unspecified") else
     match initStackProgramStart st.m n argv envp with
     | .ok (a, m) => pure ({ st with m := m }, "ok " ++ toHex a)
-    | .err => pure ({ st with poisoned := true }, "err")
+    | .err => pure (failed, "err")
     | .panic => pure (st, "panic")
   | ["cpreg", dst, src, delta] => do
     let d ← findIdx? gprNames64 dst 16
